@@ -7,6 +7,31 @@ import sys
 HERE = os.path.dirname(os.path.dirname(os.path.abspath(__file__)))
 
 # id -> (technique, level text, level note, design ref)
+NORMAL_FORM_NOTE = (". All Python rules read the front-end normal form of the source (jfsa/normalize.py: guard clauses nested, negated "
+                    "tests flipped, x = x + y as +=, append loops as comprehensions, pure single-assignment locals propagated; private "
+                    "helpers and generator helpers inlined where a rule judges a whole routine) and compare expressions after resolving "
+                    "locals by reaching definitions (jfsa/resolve.py), so a verdict does not depend on variable names, helper boundaries "
+                    "or the way a test is written; the thorough tier replays a corpus of behaviour-preserving refactorings and nine "
+                    "whole-tree metamorphic rewrites as silent twins")
+
+# rule families added after the plan was written (appended to the technique text)
+EXTRA_TECH = {
+    "C01": "; plus the rule set of C06 (scheduler order and lazy deletion)",
+    "C05": "; abstract reading of the selection walk over index / rate / identifier / prefix-sum streams; linear bookkeeping of the "
+           "pairwise derivatives (net coefficients +1 / -1); path-wise insertion-order rule for two composite objects",
+    "C06": "; three-valued reachability for the finite-time filter and the empty-heap raise; byte-count restart rule for rebuilt heaps; "
+           "expansion of C helper functions and pointer aliases in the zone analysis",
+    "C07": "; extraction-copy rule (shared with C13); scheduler protocol rules (shared with C06)",
+    "C08": "; scheduler lazy-deletion protocol (shared with C06) and activator pool accounting (shared with C09)",
+    "C09": "; one symbolic iteration of the trash loop over list values with alias tracking; pool writers inside the creation routines; "
+           "idempotence (read / write disjointness) of the tagger switch; scheduler lazy-deletion protocol (shared with C06)",
+    "C11": "; truth tables of the placement tests; abstract execution of the boundary loop for both signs of the velocity",
+    "C18": "; all comparisons after resolving locals and inlining helpers (no rule names a variable)",
+    "C20": "; path-wise abstract interpretation of the parent run loop over the stage machine (stage sets refined by tests, event "
+           "sequences parsed into legal steps); abstract execution of the worker loop under every event valuation; interval "
+           "evaluation of semaphore permits over the domain the constructor admits",
+}
+
 CLAIMS = {
     "C01": (
         "provenance / single-use dataflow rule on every Exp(beta) draw; mirror-closure and label resolution of factor files; "
@@ -299,7 +324,7 @@ def main() -> int:
                 "engine": "jfsa",
                 "level_claimed": {"category": "other", "text": text, "design_ref": ref},
                 "level_note": note,
-                "technique": "static analysis: " + tech,
+                "technique": "static analysis: " + tech + EXTRA_TECH.get(pid, "") + NORMAL_FORM_NOTE,
             })
         elif pid in NOT_APPLICABLE:
             na.append({"property_id": pid, "reason": NOT_APPLICABLE[pid]})
